@@ -106,8 +106,15 @@ def main(argv=None):
         if args.stage:
             stages = [s for s in stages if args.stage in s.name]
         results = []
+        harness_errors = []
         for st in stages:
-            r = st.execute()
+            try:
+                r = st.execute()
+            except core.HarnessError as e:
+                # keep what earlier stages found: a defect can make later explorations diverge
+                harness_errors.append(f"stage {st.name}: {e}")
+                print(f"[{pid}] HARNESS ERROR in stage {st.name}: {e}", flush=True)
+                continue
             results.append(r)
             print(f"[{pid}] stage {r.name}: evaluations={r.evaluations} distinct_nontrivial={r.distinct_nontrivial} "
                   f"violations={len(r.violations)} skipped={r.skipped} exhaustive={r.exhaustive} "
@@ -151,10 +158,12 @@ def main(argv=None):
             if confirmed:
                 reported.append((path, stage_name, v))
         wall = time.time() - t0
-        if not args.stage:
+        if not args.stage and not harness_errors:
             write_evidence(mod, tier, seed, results, wall, len(new_viols), known_lines)
         if new_viols and not reported:
             print(f"[{pid}] harness error: violations seen in the pool did not reproduce in a fresh process")
+            return 2
+        if harness_errors and not reported:
             return 2
         for path, stage_name, v in reported:
             print(f"[{pid}] stage={stage_name} case={json.dumps(v['case'])[:1500]}")
